@@ -233,7 +233,7 @@ def _rtsubs(kinds, qcases, tcases):
         subs.append(Sub('rt_' + cfg, 'rt_' + cfg, shards=(1, 2), cases=(qcases, tcases), maxsize=(100, 100), kind='stress',
                         env={'VERIF_KINDS': kinds + (',sbset,sbget' if (not tsan and 'sb' in kinds.split(',')) else ''), 'VERIF_CONFIG_TSAN': tsan}, timeout=(900, 3600)))
     return subs
-PROPS['C01'].subs += _rtsubs('lockrec,lockrec,trylockrec', 60, 600)
+PROPS['C01'].subs += _rtsubs('lockrec,lockrec,trylockrec', 60, 150)
 PROPS['C04'].subs += _rtsubs('ticket,ticket,countdown,zerorace,zerorace,casloop,mix,mp,sb', 30, 300)
 PROPS['C01'].rule += ' Real-thread sub-checks: generated (threads 2-8, rounds, lock kind, noise seed) lock programs on real threads, under ThreadSanitizer for the c11 and sim models (any race report on the protected record is a violation - this is the visibility clause) and with outcome oracles only on plain -O2 builds of c11, sync, sim.'
 PROPS['C04'].rule += ' Real-thread sub-checks: ticket uniqueness (add), countdown (dec_and_test TRUE exactly once), zero-race rounds (all threads decrement a word set to the thread count, tightly synchronised, exactly one TRUE per round), CAS increment loop, or/xor/and/inc mixes, message-passing and store-buffering litmus with iteration counts; TSan on c11/sim, outcome oracles on plain c11/sync/sim.'
